@@ -565,6 +565,45 @@ SLOTS.update({
     ('Not', 'operand@tight'): ('x = not(a)', V + [('operand', None)]),
     ('Return', 'value@tight'): ('def f():\n    return(a)', [('body', 0), ('body', 0), ('value', None)]),
 })
+# targets that share delimiters with their parent, are an unparenthesised tuple, or carry redundant own parentheses: what is
+# overwritten together with the target (`del_tgt_pars`, pars(shared=False)) decides whether the parent keeps its delimiters
+SLOTS.update({
+    ('Call', 'args@genexp'): ('x = f(i for i in a)', V + [('args', 0)]),
+    ('Call', 'args@genexp-pars'): ('x = f((i for i in a))', V + [('args', 0)]),
+    ('Call', 'args@solo-pars'): ('x = f((a))', V + [('args', 0)]),
+    ('Call', 'args@solo'): ('x = f(a)', V + [('args', 0)]),
+    ('Call', 'args@starred'): ('x = f(*a)', V + [('args', 0), ('value', None)]),
+    ('ClassDef', 'bases@solo-pars'): ('class c((a)):\n    pass', [('body', 0), ('bases', 0)]),
+    ('ClassDef', 'bases@solo'): ('class c(a):\n    pass', [('body', 0), ('bases', 0)]),
+    ('Subscript', 'slice@tuple'): ('x = s[a, b]', V + [('slice', None)]),
+    ('Subscript', 'slice@pars'): ('x = s[(a)]', V + [('slice', None)]),
+    ('Subscript', 'slice@tuple-elt'): ('x = s[a, b]', V + [('slice', None), ('elts', 0)]),
+    ('Subscript', 'value@pars'): ('x = (a)[b]', V + [('value', None)]),
+    ('Attribute', 'value@pars'): ('x = (a).b', V + [('value', None)]),
+    ('Attribute', 'value@int'): ('x = (1).b', V + [('value', None)]),
+    ('Tuple', 'elts@bare0'): ('x = a, b', V + [('elts', 0)]),
+    ('Tuple', 'elts@bare1'): ('x = a, b', V + [('elts', 1)]),
+    ('Tuple', 'elts@stmt'): ('a, b', [('body', 0), ('value', None), ('elts', 1)]),
+    ('Assign', 'value@tuple'): ('x = a, b', V),
+    ('Return', 'value@tuple'): ('def f():\n    return a, b', [('body', 0), ('body', 0), ('value', None)]),
+    ('For', 'iter@tuple'): ('for i in a, b:\n    pass', [('body', 0), ('iter', None)]),
+    ('withitem', 'context_expr@pars'): ('with (a):\n    pass', [('body', 0), ('items', 0), ('context_expr', None)]),
+    ('withitem', 'context_expr@pars-as'): ('with (a) as b:\n    pass', [('body', 0), ('items', 0), ('context_expr', None)]),
+    ('withitem', 'context_expr@pars-two'): ('with (a, b):\n    pass', [('body', 0), ('items', 0), ('context_expr', None)]),
+    ('Await', 'value@pars'): ('x = await (a)', V + [('value', None)]),
+    ('Yield', 'value@tuple'): ('x = yield a, b', V + [('value', None)]),
+    ('NamedExpr', 'value@stmt-pars'): ('(y := a)', [('body', 0), ('value', None), ('value', None)]),
+    ('Lambda', 'body@pars'): ('x = lambda: (a)', V + [('body', None)]),
+    ('Starred', 'value@pars'): ('x = [*(a), b]', V + [('elts', 0), ('value', None)]),
+    ('keyword', 'value@pars'): ('x = f(k=(a))', V + [('keywords', 0), ('value', None)]),
+    ('Dict', 'values**@pars'): ('x = {**(a)}', V + [('values', 0)]),
+    ('comprehension', 'iter@pars'): ('x = [a for b in (c)]', V + [('generators', 0), ('iter', None)]),
+    ('GeneratorExp', 'elt@call'): ('x = f(a for b in c)', V + [('args', 0), ('elt', None)]),
+    ('Slice', 'lower@pars'): ('x = a[(b):c]', V + [('slice', None), ('lower', None)]),
+    ('FunctionDef', 'decorator_list@pars'): ('@(a)\ndef f():\n    pass', [('body', 0), ('decorator_list', 0)]),
+    ('Assert', 'test@pars'): ('assert (a), b', [('body', 0), ('test', None)]),
+    ('Expr', 'value@pars'): ('(a)', [('body', 0), ('value', None)]),
+})
 PC = [('body', 0), ('cases', 0), ('pattern', None)]
 PAT_SLOTS = {
     ('MatchAs', 'pattern'): ('match s:\n    case 1 as z:\n        pass', PC + [('pattern', None)]),
@@ -574,6 +613,13 @@ PAT_SLOTS = {
     ('MatchClass', 'patterns'): ('match s:\n    case C(1, 2):\n        pass', PC + [('patterns', 1)]),
     ('MatchClass', 'kwd_patterns'): ('match s:\n    case C(k=1, l=2):\n        pass', PC + [('kwd_patterns', 1)]),
     ('match_case', 'pattern'): ('match s:\n    case 1:\n        pass', PC),
+    ('MatchClass', 'patterns@solo-pars'): ('match s:\n    case C((1)):\n        pass', PC + [('patterns', 0)]),
+    ('MatchClass', 'patterns@solo'): ('match s:\n    case C(1):\n        pass', PC + [('patterns', 0)]),
+    ('MatchAs', 'pattern@pars'): ('match s:\n    case (1) as z:\n        pass', PC + [('pattern', None)]),
+    ('MatchOr', 'patterns@pars'): ('match s:\n    case (1) | 2:\n        pass', PC + [('patterns', 0)]),
+    ('MatchSequence', 'patterns@bare'): ('match s:\n    case 1, 2:\n        pass', PC + [('patterns', 0)]),
+    ('match_case', 'pattern@seq'): ('match s:\n    case 1, 2:\n        pass', PC),
+    ('match_case', 'pattern@pars'): ('match s:\n    case (1):\n        pass', PC),
 }
 
 CHILDREN = {
@@ -584,10 +630,18 @@ CHILDREN = {
     'Compare': 'p < q', 'CompareIn': 'p not in q', 'Tuple': 'p, q', 'Tuple1': 'p,', 'Starred': '*p', 'Call': 'p(q)',
     'Attribute': 'p.q', 'Subscript': 'p[q]', 'List': '[p, q]', 'Dict': '{p: q}', 'Set': '{p}', 'ListComp': '[p for p in q]',
     'GeneratorExp': '(p for p in q)', 'JoinedStr': 'f"{p}"', 'ImplicitStr': '"s" "t"', 'Float': '1.5', 'Ellipsis': '...',
+    # undelimited sequences whose first / last elements carry their own delimiters (a naive "starts with an opener and ends
+    # with a closer" test takes them for delimited)
+    'TupleBrEnds': '[p], [q]', 'TupleParEnds': '(p), (q)', 'TupleTupEnds': '(p, q), (r, s)', 'TupleBrFirst': '[p], q',
+    'TupleParFirstStar': '(p), *q', 'CallPars': '(p)(q)', 'SubPars': '(p)[q]', 'BinParEnds': '(p) + (q)', 'CmpParEnds': '(p) < (q)',
+    'IfExpParEnds': '(p) if q else (r)', 'BoolParEnds': '(p) or (q)', 'AttrPars': '(p).q',
 }
 PAT_CHILDREN = {'MatchValue': '7', 'MatchSingleton': 'None', 'MatchAsName': 'zz', 'MatchAs': 'p as q', 'MatchOr': '7 | 8',
                 'MatchSequence': 'p, q', 'MatchSequenceBr': '[p, q]', 'MatchMapping': '{1: p}', 'MatchClass': 'C(p)',
-                'MatchValueAttr': 'a.b', 'Wildcard': '_'}
+                'MatchValueAttr': 'a.b', 'Wildcard': '_',
+                'MatchSequenceBrEnds': '[p], [q]', 'MatchSequenceParEnds': '(p), (q)', 'MatchSequenceBrFirst': '[p], q',
+                'MatchSequenceBrStar': '[p], *q', 'MatchSequenceTupEnds': '(p, q), (r, s)', 'MatchOrParEnds': '(7) | (8)',
+                'MatchAsPars': '(p) as q', 'MatchOrBrEnds': '[p] | [q]'}
 
 LAYOUTS = ['bare', 'pars', 'multi_pars', 'multi_cont', 'comment', 'comment_bs']
 
